@@ -1,4 +1,5 @@
 import CoapVerif.Lemmas.Parse
+import CoapVerif.Lemmas.OptFilter
 /-
 C03 — the decoder accepts exactly the well-formed messages and reports what is on the wire.
 
@@ -154,6 +155,248 @@ theorem accessors_report_wire (code : Nat) : ∀ (fuel : Nat) (bs : Bytes) (maxO
               have := ih _ _ os' rest' hw
               simp only [this]
               rw [← hos]
+
+
+/-! ### the selective accessors: option filter, filtered iteration, `coap_check_option`
+
+`coap_check_option(pdu, number, &oi)` and `coap_option_iterator_init(pdu, &oi, filter)` + `coap_option_next` are how every
+caller (the library itself and applications) reads single options of an accepted message.  M = `Coap.M.OptFilter`
+(transcription of `coap_option_filter_op`, the skip loop of `coap_option_next`, `coap_check_option`), S =
+`Coap.Spec.OptFilter.BSet` (a bounded duplicate-free set) and `List.filter` / `List.find?` over the decoder's option list. -/
+
+open Coap.M.OptFilter in
+/-- the representation relation between the C filter (mask + slot arrays) and the bounded set of S -/
+def FilterRel (f : Flt) (s : Spec.OptFilter.BSet) : Prop :=
+  f.long.length = Spec.OptFilter.capLong ∧ f.short.length = Spec.OptFilter.capShort ∧
+  s.long.Perm (usedVals f.long) ∧ s.short.Perm (usedVals f.short) ∧ s.WF
+
+open Coap.M.OptFilter in
+theorem filter_clear_rel : FilterRel Flt.clear Spec.OptFilter.BSet.empty := by
+  refine ⟨rfl, rfl, ?_, ?_, ?_, ?_⟩ <;> simp [Flt.clear, Spec.OptFilter.BSet.empty, usedVals, List.replicate]
+
+open Coap.M.OptFilter in
+/-- (P1, one operation) for EVERY filter state that represents a bounded set and EVERY option number ≤ 65535:
+FILTER_GET / FILTER_SET / FILTER_CLEAR return what the bounded set returns and leave a state representing the set's
+next state (GET changes nothing).  In particular a SET is refused exactly when the number is absent and all
+slots of its class are in use, and CLEAR removes exactly the number named. -/
+theorem filter_op_refines (f : Flt) (s : Spec.OptFilter.BSet) (h : FilterRel f s) (n : Nat) (hn : n ≤ 65535) :
+    f.op n Op.get = (f, if s.get n then 1 else 0) ∧
+    (FilterRel (f.op n Op.set).1 (s.set n).1 ∧ (f.op n Op.set).2 = (s.set n).2) ∧
+    (FilterRel (f.op n Op.clr).1 (s.clr n).1 ∧ (f.op n Op.clr).2 = (s.clr n).2) := by
+  obtain ⟨hl, hs, hpl, hps, hwl, hws⟩ := h
+  by_cases hc : n > 255
+  · obtain ⟨hg, ⟨hsl, hs1, hs2, hs3⟩, hcl, hc2, hc3⟩ := opOn_refines f.long s.long hpl hwl n
+    refine ⟨?_, ⟨?_, ?_⟩, ⟨?_, ?_⟩⟩
+    · simp only [Flt.op, hc, if_true, hg, Spec.OptFilter.BSet.get]
+      by_cases hm : n ∈ s.long <;> simp [hm]
+    · by_cases hm : n ∈ s.long
+      · simp only [Flt.op, hc, if_true, hs1 hm, Spec.OptFilter.BSet.set, hm]
+        exact ⟨hl, hs, hpl, hps, hwl, hws⟩
+      · by_cases hr : s.long.length < f.long.length
+        · have hr' : s.long.length < Spec.OptFilter.capLong := by rw [← hl]; exact hr
+          obtain ⟨_, hp⟩ := hs2 hm hr
+          simp only [Flt.op, hc, if_true, Spec.OptFilter.BSet.set, hm, if_false, hr']
+          exact ⟨by rw [hsl]; exact hl, hs, hp, hps, List.nodup_cons.2 ⟨hm, hwl⟩, hws⟩
+        · have hr' : ¬ s.long.length < Spec.OptFilter.capLong := by rw [← hl]; exact hr
+          simp only [Flt.op, hc, if_true, hs3 hm hr, Spec.OptFilter.BSet.set, hm, if_false, hr']
+          exact ⟨hl, hs, hpl, hps, hwl, hws⟩
+    · by_cases hm : n ∈ s.long
+      · simp [Flt.op, hc, hs1 hm, Spec.OptFilter.BSet.set, hm]
+      · by_cases hr : s.long.length < f.long.length
+        · have hr' : s.long.length < Spec.OptFilter.capLong := by rw [← hl]; exact hr
+          simp [Flt.op, hc, (hs2 hm hr).1, Spec.OptFilter.BSet.set, hm, hr']
+        · have hr' : ¬ s.long.length < Spec.OptFilter.capLong := by rw [← hl]; exact hr
+          simp [Flt.op, hc, hs3 hm hr, Spec.OptFilter.BSet.set, hm, hr']
+    · simp only [Flt.op, hc, if_true, Spec.OptFilter.BSet.clr]
+      exact ⟨by rw [hcl]; exact hl, hs, hc3, hps, hwl.erase n, hws⟩
+    · simp only [Flt.op, hc, if_true, Spec.OptFilter.BSet.clr, hc2]
+  · have hmod : n % 256 = n := Nat.mod_eq_of_lt (by omega)
+    obtain ⟨hg, ⟨hsl, hs1, hs2, hs3⟩, hcl, hc2, hc3⟩ := opOn_refines f.short s.short hps hws n
+    refine ⟨?_, ⟨?_, ?_⟩, ⟨?_, ?_⟩⟩
+    · simp only [Flt.op, hc, if_false, hmod, hg, Spec.OptFilter.BSet.get]
+      by_cases hm : n ∈ s.short <;> simp [hm]
+    · by_cases hm : n ∈ s.short
+      · simp only [Flt.op, hc, if_false, hmod, hs1 hm, Spec.OptFilter.BSet.set, hm]
+        exact ⟨hl, hs, hpl, hps, hwl, hws⟩
+      · by_cases hr : s.short.length < f.short.length
+        · have hr' : s.short.length < Spec.OptFilter.capShort := by rw [← hs]; exact hr
+          obtain ⟨_, hp⟩ := hs2 hm hr
+          simp only [Flt.op, hc, if_false, hmod, Spec.OptFilter.BSet.set, hm, hr', if_true]
+          exact ⟨hl, by rw [hsl]; exact hs, hpl, hp, hwl, List.nodup_cons.2 ⟨hm, hws⟩⟩
+        · have hr' : ¬ s.short.length < Spec.OptFilter.capShort := by rw [← hs]; exact hr
+          simp only [Flt.op, hc, if_false, hmod, hs3 hm hr, Spec.OptFilter.BSet.set, hm, hr']
+          exact ⟨hl, hs, hpl, hps, hwl, hws⟩
+    · by_cases hm : n ∈ s.short
+      · simp [Flt.op, hc, hmod, hs1 hm, Spec.OptFilter.BSet.set, hm]
+      · by_cases hr : s.short.length < f.short.length
+        · have hr' : s.short.length < Spec.OptFilter.capShort := by rw [← hs]; exact hr
+          simp [Flt.op, hc, hmod, (hs2 hm hr).1, Spec.OptFilter.BSet.set, hm, hr']
+        · have hr' : ¬ s.short.length < Spec.OptFilter.capShort := by rw [← hs]; exact hr
+          simp [Flt.op, hc, hmod, hs3 hm hr, Spec.OptFilter.BSet.set, hm, hr']
+    · simp only [Flt.op, hc, if_false, hmod, Spec.OptFilter.BSet.clr]
+      exact ⟨hl, by rw [hcl]; exact hs, hpl, hc3, hwl, hws.erase n⟩
+    · simp only [Flt.op, hc, if_false, hmod, Spec.OptFilter.BSet.clr, hc2]
+
+/-- a script of filter operations: (operation, option number) -/
+abbrev FScript := List (M.OptFilter.Op × Nat)
+
+open Coap.M.OptFilter in
+def runFilterM : FScript → Flt → Flt × List Nat
+  | [], f => (f, [])
+  | (o, n) :: r, f => let x := f.op n o; let y := runFilterM r x.1; (y.1, x.2 :: y.2)
+
+open Coap.M.OptFilter in
+def runFilterS : FScript → Spec.OptFilter.BSet → Spec.OptFilter.BSet × List Nat
+  | [], s => (s, [])
+  | (Op.get, n) :: r, s => let y := runFilterS r s; (y.1, (if s.get n then 1 else 0) :: y.2)
+  | (Op.set, n) :: r, s => let x := s.set n; let y := runFilterS r x.1; (y.1, x.2 :: y.2)
+  | (Op.clr, n) :: r, s => let x := s.clr n; let y := runFilterS r x.1; (y.1, x.2 :: y.2)
+
+open Coap.M.OptFilter in
+/-- (P1, every history) after `coap_option_filter_clear` EVERY sequence of set / unset / get calls with option numbers
+≤ 65535 returns exactly what the bounded set returns, and the final filter represents the final set — so afterwards
+`coap_option_filter_get(f, m)` is true exactly for the numbers the set holds. -/
+theorem filter_run_refines (sc : FScript) (hsc : ∀ x ∈ sc, x.2 ≤ 65535) :
+    ∀ (f : Flt) (s : Spec.OptFilter.BSet), FilterRel f s →
+      (runFilterM sc f).2 = (runFilterS sc s).2 ∧ FilterRel (runFilterM sc f).1 (runFilterS sc s).1 := by
+  induction sc with
+  | nil => intro f s h; exact ⟨rfl, h⟩
+  | cons x r ih =>
+    intro f s h
+    obtain ⟨o, n⟩ := x
+    have hn : n ≤ 65535 := hsc (o, n) (by simp)
+    have hr : ∀ x ∈ r, x.2 ≤ 65535 := fun x hx => hsc x (by simp [hx])
+    obtain ⟨hg, ⟨hsr, hsv⟩, hcr, hcv⟩ := filter_op_refines f s h n hn
+    cases o with
+    | get =>
+      have := ih hr f s h
+      simp only [runFilterM, runFilterS, hg]
+      exact ⟨by rw [this.1], this.2⟩
+    | set =>
+      have := ih hr _ _ hsr
+      simp only [runFilterM, runFilterS]
+      exact ⟨by rw [this.1, hsv], this.2⟩
+    | clr =>
+      have := ih hr _ _ hcr
+      simp only [runFilterM, runFilterS]
+      exact ⟨by rw [this.1, hcv], this.2⟩
+
+open Coap.M.OptFilter in
+/-- `coap_option_filter_get` of a represented filter is membership in the set -/
+theorem filter_get_is_membership (f : Flt) (s : Spec.OptFilter.BSet) (h : FilterRel f s) (n : Nat) (hn : n ≤ 65535) :
+    f.get n = s.get n := by
+  have := (filter_op_refines f s h n hn).1
+  simp only [Flt.get, this]
+  cases s.get n <;> simp
+
+/-- S-level law the callers rely on: in a duplicate-free bounded set a number that was unset is no longer a member,
+and every other number keeps its membership under set / unset of `n`. -/
+theorem bset_laws (s : Spec.OptFilter.BSet) (hw : s.WF) (n m : Nat) :
+    (s.clr n).1.get n = false ∧ ((s.set n).2 = 1 → (s.set n).1.get n = true) ∧
+    (m ≠ n → (s.clr n).1.get m = s.get m ∧ (s.set n).1.get m = s.get m) ∧ (s.set n).1.WF ∧ (s.clr n).1.WF := by
+  obtain ⟨hwl, hws⟩ := hw
+  by_cases hc : n > 255
+  · refine ⟨?_, ?_, ?_, ?_, ?_⟩
+    · simp [Spec.OptFilter.BSet.clr, Spec.OptFilter.BSet.get, hc, hwl.mem_erase_iff]
+    · by_cases hm : n ∈ s.long
+      · simp [Spec.OptFilter.BSet.set, Spec.OptFilter.BSet.get, hc, hm]
+      · by_cases hr : s.long.length < Spec.OptFilter.capLong <;>
+          simp [Spec.OptFilter.BSet.set, Spec.OptFilter.BSet.get, hc, hm, hr]
+    · intro hne
+      constructor
+      · by_cases hc2 : m > 255 <;> simp [Spec.OptFilter.BSet.clr, Spec.OptFilter.BSet.get, hc, hc2, List.mem_erase_of_ne hne]
+      · by_cases hm : n ∈ s.long
+        · simp [Spec.OptFilter.BSet.set, hc, hm]
+        · by_cases hr : s.long.length < Spec.OptFilter.capLong <;> by_cases hc2 : m > 255 <;>
+            simp [Spec.OptFilter.BSet.set, Spec.OptFilter.BSet.get, hc, hm, hr, hc2, hne]
+    · by_cases hm : n ∈ s.long
+      · simp only [Spec.OptFilter.BSet.set, hc, hm, if_true, if_false]; exact ⟨hwl, hws⟩
+      · by_cases hr : s.long.length < Spec.OptFilter.capLong
+        · simp only [Spec.OptFilter.BSet.set, hc, hm, hr, if_true, if_false]
+          exact ⟨List.nodup_cons.2 ⟨hm, hwl⟩, hws⟩
+        · simp only [Spec.OptFilter.BSet.set, hc, hm, hr, if_true, if_false]; exact ⟨hwl, hws⟩
+    · simp only [Spec.OptFilter.BSet.clr, hc, if_true]; exact ⟨hwl.erase n, hws⟩
+  · refine ⟨?_, ?_, ?_, ?_, ?_⟩
+    · simp [Spec.OptFilter.BSet.clr, Spec.OptFilter.BSet.get, hc, hws.mem_erase_iff]
+    · by_cases hm : n ∈ s.short
+      · simp [Spec.OptFilter.BSet.set, Spec.OptFilter.BSet.get, hc, hm]
+      · by_cases hr : s.short.length < Spec.OptFilter.capShort <;>
+          simp [Spec.OptFilter.BSet.set, Spec.OptFilter.BSet.get, hc, hm, hr]
+    · intro hne
+      constructor
+      · by_cases hc2 : m > 255 <;> simp [Spec.OptFilter.BSet.clr, Spec.OptFilter.BSet.get, hc, hc2, List.mem_erase_of_ne hne]
+      · by_cases hm : n ∈ s.short
+        · simp [Spec.OptFilter.BSet.set, hc, hm]
+        · by_cases hr : s.short.length < Spec.OptFilter.capShort <;> by_cases hc2 : m > 255 <;>
+            simp [Spec.OptFilter.BSet.set, Spec.OptFilter.BSet.get, hc, hm, hr, hc2, hne]
+    · by_cases hm : n ∈ s.short
+      · simp only [Spec.OptFilter.BSet.set, hc, hm, if_true, if_false]; exact ⟨hwl, hws⟩
+      · by_cases hr : s.short.length < Spec.OptFilter.capShort
+        · simp only [Spec.OptFilter.BSet.set, hc, hm, hr, if_true, if_false]
+          exact ⟨hwl, List.nodup_cons.2 ⟨hm, hws⟩⟩
+        · simp only [Spec.OptFilter.BSet.set, hc, hm, hr, if_true, if_false]; exact ⟨hwl, hws⟩
+    · simp only [Spec.OptFilter.BSet.clr, hc, if_false]; exact ⟨hwl, hws.erase n⟩
+
+/-- (P1) filtered iteration: for EVERY byte string, filter predicate and starting number, `coap_option_iterator_init`
+with a filter + `coap_option_next` until NULL returns exactly the options of the unfiltered walk whose numbers pass
+the filter, in message order (and is out of bounds / stops exactly where the unfiltered walk does) — although the
+skip loop does not re-evaluate `opt_finished()` between skipped options. -/
+theorem filtered_iteration_is_filter (flt : Nat → Bool) (fuel : Nat) (bs : Bytes) (n : Nat) (fresh : Bool) :
+    M.OptFilter.iterF flt fuel bs n fresh =
+      M.OptFilter.mapR (List.filter (fun o => flt o.1)) (M.iter fuel bs n) :=
+  M.OptFilter.iterF_eq_filter flt fuel bs n fresh
+
+/-- with `accessors_report_wire`: over an ACCEPTED message the filtered iteration reports exactly the decoder's options
+whose numbers are in the bounded set the filter represents -/
+theorem filtered_accessors_report_wire (code fuel : Nat) (bs : Bytes) (os : List (Nat × Bytes)) (rest : Bytes)
+    (hw : walk code fuel bs 0 = R.ok (true, os, rest))
+    (f : M.OptFilter.Flt) (s : Spec.OptFilter.BSet) (h : FilterRel f s) (hos : ∀ o ∈ os, o.1 ≤ 65535) :
+    M.OptFilter.iterF f.get fuel bs 0 true = R.ok (os.filter (fun o => s.get o.1)) := by
+  rw [filtered_iteration_is_filter, accessors_report_wire code fuel bs 0 os rest hw]
+  simp only [M.OptFilter.mapR]
+  congr 1
+  apply List.filter_congr
+  intro o ho
+  exact filter_get_is_membership f s h o.1 (hos o ho)
+
+/-- (P1) `coap_check_option(pdu, number, &oi)` over an accepted message returns the FIRST option carrying that number
+(NULL iff there is none), for every number ≤ 65535. -/
+theorem check_option_is_first (code fuel : Nat) (bs : Bytes) (os : List (Nat × Bytes)) (rest : Bytes)
+    (hw : walk code fuel bs 0 = R.ok (true, os, rest)) (number : Nat) (hn : number ≤ 65535)
+    (hos : ∀ o ∈ os, o.1 ≤ 65535) :
+    M.OptFilter.checkOption fuel bs number = R.ok (os.find? (fun o => o.1 = number)) := by
+  have hit := accessors_report_wire code fuel bs 0 os rest hw
+  unfold M.OptFilter.checkOption
+  rw [M.OptFilter.firstF_eq_find _ fuel bs 0 true os hit]
+  congr 1
+  -- the filter {number}: get m ↔ m = number
+  obtain ⟨_, ⟨hrel, _⟩, _⟩ := filter_op_refines _ _ filter_clear_rel number hn
+  have key : ∀ o ∈ os, (M.OptFilter.Flt.clear.op number M.OptFilter.Op.set).1.get o.1 = decide (o.1 = number) := by
+    intro o ho
+    rw [filter_get_is_membership _ _ hrel o.1 (hos o ho)]
+    by_cases hc : number > 255
+    · by_cases hc2 : o.1 > 255 <;> simp [Spec.OptFilter.BSet.set, Spec.OptFilter.BSet.get, Spec.OptFilter.BSet.empty,
+        Spec.OptFilter.capLong, hc, hc2] <;> omega
+    · by_cases hc2 : o.1 > 255 <;> simp [Spec.OptFilter.BSet.set, Spec.OptFilter.BSet.get, Spec.OptFilter.BSet.empty,
+        Spec.OptFilter.capShort, hc, hc2] <;> omega
+  clear hw hit hos
+  induction os with
+  | nil => rfl
+  | cons o r ih =>
+    have h1 := key o (by simp)
+    have h2 := ih (fun o ho => key o (by simp [ho]))
+    simp only [List.find?, h1, h2]
+
+/-! non-vacuity for the filter theorems -/
+example : FilterRel ((M.OptFilter.Flt.clear.op 300 M.OptFilter.Op.set).1.op 7 M.OptFilter.Op.set).1 ⟨[300], [7]⟩ := by
+  refine ⟨by decide, by decide, ?_, ?_, ?_, ?_⟩ <;> decide
+/-- a third long option is refused (2 slots), unset makes room again -/
+example : (runFilterM [(.set, 300), (.set, 301), (.set, 302), (.clr, 300), (.set, 302), (.get, 300), (.get, 302)]
+    M.OptFilter.Flt.clear).2 = [1, 1, 0, 1, 1, 0, 1] := by decide
+example : M.OptFilter.checkOption 10 [0xB1, 0x61, 0x01, 0x62, 0x11, 0x63] 12 = R.ok (some (12, [0x63])) := by decide
+example : M.OptFilter.checkOption 10 [0xB1, 0x61, 0x01, 0x62, 0xFF, 0x63] 12 = R.ok none := by decide
+example : walk 1 10 [0xB1, 0x61, 0x01, 0x62, 0x11, 0x63] 0 =
+    R.ok (true, [(11, [0x61]), (11, [0x62]), (12, [0x63])], []) := by decide
 
 /-! ### non-vacuity: concrete strings on both sides of the accept/reject line -/
 
